@@ -451,8 +451,10 @@ Proof.
     rewrite (F0 eq_refl). cbn [negb andb]. destruct first; [apply Never_throw; discriminate|apply Never_ret].
 Qed.
 
-Lemma Never_finalize_writes o : forall ds st, Never (finalize_writes o st ds).
-Proof. induction ds as [|d r IH]; intros st; cbn [finalize_writes]; pose proof Never_write_now; pose proof Never_ensure; nf. Qed.
+Lemma Never_finalize_writes_from o all : forall ds st, Never (finalize_writes_from o all st ds).
+Proof. induction ds as [|d r IH]; intros st; cbn [finalize_writes_from]; pose proof Never_write_now; pose proof Never_ensure; nf. Qed.
+Lemma Never_finalize_writes o ds st : Never (finalize_writes o st ds).
+Proof. apply Never_finalize_writes_from. Qed.
 Lemma Never_finalize_removals ws : forall rs, Never (finalize_removals ws rs).
 Proof. induction rs as [|p r IH]; cbn [finalize_removals]; pose proof Never_remove; nf. Qed.
 
